@@ -30,6 +30,15 @@ def sameListing (a b : List (Str × Str)) : Bool :=
 def handle : Handler := fun j => do
   let op ← (← j.getObjVal? "op").getStr?
   let obs ← getObj j "obs"
+  if op == "twowriters" then
+    -- two writers of different names are independent in the model: each file holds its own writer's content
+    let a ← (← obs.getObjVal? "a").getStr?
+    let b ← (← obs.getObjVal? "b").getStr?
+    let inter ← getBool obs "interleaved"
+    let judge : Option String :=
+      if a != "equal" then some s!"first-writer-file-{a}-after-interleaved-write"
+      else if b != "equal" then some s!"second-writer-file-{b}-after-interleaved-write" else none
+    return verdict judge.isNone judge Json.null [if inter then "writers-interleaved" else "writers-not-interleaved"]
   let before ← readEntries j "before"
   let dst ← getStr j "dst"
   let new ← getStr j "new"
